@@ -4,7 +4,7 @@
 From Coq Require Import List ZArith QArith Bool Reals Lia Arith Sorting.Permutation.
 Import ListNotations.
 Require Import MD.Gen.HbondTables MD.Gen.HbondFormulas MD.Hbond.Model MD.Hbond.KsModel MD.Hbond.Run
-               MD.Hbond.Proofs MD.Hbond.KsProofs MD.Hbond.KsSpec MD.Hbond.CosR MD.Hbond.KsFormula.
+               MD.Hbond.Proofs MD.Hbond.KsProofs MD.Hbond.KsSpec MD.Hbond.CosR MD.Hbond.KsFormula MD.Hbond.WnR.
 Local Open Scope Z_scope.
 
 (* ---------------------------------------------------------------- candidate triplets *)
@@ -72,9 +72,51 @@ Theorem wn_prefilter_harmless : forall p t fs,
 Proof. exact Proofs.wn_prefilter_harmless. Qed.
 Print Assumptions wn_prefilter_harmless.
 
+(* ---- what is exact and what is enclosed --------------------------------------------------------------
+   Exact (integers): the squared distances a2 = |DA|^2, b2 = |DH|^2, c2 = |HA|^2 (minimum image included),
+   the stage-one mask and the apex test  r_DA < cut  (a2 * cd^2 < (cn G)^2), the numerator a2 + b2 - c2.
+   Enclosed (rational lower/upper bounds, PROVED against the real numbers in Hbond/WnR.v): r = sqrt(a2)/G,
+   the half-angle bound phi = sqrt((cut - r)/const) * pi/180 (Z.sqrt rounded down/up, 3141592653e-9 < pi <
+   3141592654e-9, outward rounding to 2^-10 resp. 2^-24), cos(phi) (partial sums 7 / 8 of the alternating
+   series, exact in Q) and cos(delta) = N / (2 sqrt(a2 b2)).
+   wn_real_triplet is the criterion over R as mdtraj states it:
+       sqrt(a2)/G < cut - const * (acos(clip(N/(2 sqrt(a2 b2)))) * 180/pi)^2 .
+   The correspondence uses wn_sure with the apex pulled in by the guard as the strict side and wn_maybe with the
+   apex pushed out as the lenient side: by the two theorems below the model's own numerical error is
+   enclosed rigorously, and the guard (2e-5 nm) only has to cover mdtraj's float32 rounding.
+   (Over R: standard-library real-number axioms and classic.) *)
+Theorem wn_sure_is_sound : forall p f t, wn_wf p -> wn_sure p f t = true -> wn_real_triplet p f t.
+Proof. exact wn_sure_sound. Qed.
+Print Assumptions wn_sure_is_sound.
+
+Theorem wn_maybe_is_complete : forall p f d h a, wn_wf p ->
+  0 < dist2 (wn_periodic p) f d a -> 0 < dist2 (wn_periodic p) f d h ->
+  wn_real_triplet p f (d, h, a) -> wn_maybe p f (d, h, a) = true.
+Proof. exact wn_maybe_complete. Qed.
+Print Assumptions wn_maybe_is_complete.
+
+(* the prefilter is harmless for both sides of the sandwich as well *)
+Theorem wn_sandwich_prefilter_harmless : forall p t fs,
+  wernet_nilsson_with wn_sure p t fs =
+    match bond_triplets (wn_ew p) (wn_sc p) t with
+    | ErrNoBonds => ErrNoBonds
+    | Ok trip => Ok (map (fun f => filter (fun tr => wn_sure p f tr) trip) fs)
+    end /\
+  wernet_nilsson_with wn_maybe p t fs =
+    match bond_triplets (wn_ew p) (wn_sc p) t with
+    | ErrNoBonds => ErrNoBonds
+    | Ok trip => Ok (map (fun f => filter (fun tr => wn_maybe p f tr) trip) fs)
+    end.
+Proof.
+  intros p t fs. split; apply wn_with_prefilter_harmless; intros f tr; [apply wn_sure_close | apply wn_maybe_close].
+Qed.
+Print Assumptions wn_sandwich_prefilter_harmless.
+
+(* the nominal 2^-44 fixed-point evaluation of the same decision (not used by the correspondence any more):
+   its structure, every comparison strict *)
 (* the cone decision spelled out (strictness of every comparison); the angle part is the fixed-point
    evaluation of  delta < sqrt((cut - r)/const) degrees  as  cos(delta) > cos(bound)  -- numerical *)
-Theorem wn_spec : forall p f d h a,
+Theorem wn_nominal_spec : forall p f d h a,
   let a2 := dist2 (wn_periodic p) f d a in
   let b2 := dist2 (wn_periodic p) f d h in
   let c2 := dist2 (wn_periodic p) f h a in
@@ -83,7 +125,7 @@ Theorem wn_spec : forall p f d h a,
   0 < wn_slack p a2 /\ 0 < a2 * b2 /\
   (PI_fx <= wn_phi p a2 \/ wn_cosphi (wn_phi p a2) < wn_cosd a2 b2 c2).
 Proof. exact Proofs.wn_spec. Qed.
-Print Assumptions wn_spec.
+Print Assumptions wn_nominal_spec.
 
 (* the cone never accepts a donor-acceptor pair at or beyond the 0.33 nm apex distance (exact test) *)
 Theorem wn_cone_inside_cutoff : forall p f tr, wn_presence p f tr = true -> wn_close p f tr = true.
@@ -244,3 +286,11 @@ Proof.
   (destruct a as [|[|[|a]]]; [discriminate | | | lia]); vm_compute; discriminate.
 Qed.
 Print Assumptions nondegenerate_example.
+
+(* wn_sure is not vacuous: a straight O-H...O with the oxygens 0.28 nm apart is certainly inside the cone,
+   one with a 40 degree H-D-A angle at the same distance is certainly outside (wn_maybe = false) *)
+Example wn_sure_example :
+  cone_sure 1024 (33 # 100) (44 # 1000000) 82204 10486 33857 = true /\
+  cone_maybe 1024 (33 # 100) (44 # 1000000) 82204 10486 60000 = false.
+Proof. split; vm_compute; reflexivity. Qed.
+Print Assumptions wn_sure_example.
